@@ -52,13 +52,20 @@ def bind_repo():
 
 
 _SCRATCH_ROOT = None
+_SCRATCH_PID = None
 
 
 def scratch_root():
     """Process-private scratch directory outside /repo, /verif and /tmp."""
-    global _SCRATCH_ROOT
+    global _SCRATCH_ROOT, _SCRATCH_PID
+    if _SCRATCH_PID != os.getpid():
+        _SCRATCH_ROOT = None  # inherited over fork: belongs to the parent
+        _SCRATCH_PID = os.getpid()
     if _SCRATCH_ROOT is None or not os.path.isdir(_SCRATCH_ROOT):
-        base = os.environ.get("VERIF_SCRATCH", "/var/tmp")
+        base = os.environ.get("VERIF_SCRATCH")
+        if not base:
+            # tmpfs when available (file churn of the history/fault explorers is ~10x faster), else disk
+            base = "/dev/shm" if os.path.isdir("/dev/shm") and os.access("/dev/shm", os.W_OK) else "/var/tmp"
         os.makedirs(base, exist_ok=True)
         _SCRATCH_ROOT = tempfile.mkdtemp(prefix="mako-verif-%d-" % os.getpid(), dir=base)
     return _SCRATCH_ROOT
@@ -70,6 +77,8 @@ def scratch_dir(prefix="d"):
 
 def cleanup_scratch():
     global _SCRATCH_ROOT
+    if _SCRATCH_PID != os.getpid():
+        return
     if _SCRATCH_ROOT and os.path.isdir(_SCRATCH_ROOT):
         shutil.rmtree(_SCRATCH_ROOT, ignore_errors=True)
     _SCRATCH_ROOT = None
